@@ -102,10 +102,17 @@ def run (case impl : String) : String × String :=
   match kvNat toks "q", (kvGet toks "u").bind legOfStr, (kvGet toks "t").bind legOfStr with
   | some q, some u, some t =>
     let m := strOfOut (exchange q u t)
+    -- "replies without TC … cause no TCP attempt" also holds for a reply without TC that does not decode (cut):
+    -- the UDP leg yields no message (`.err` above, where `spec` is silent), but a reply WAS received
+    let noTcReply := match ((kvGet toks "u").getD "").splitOn ":" with
+      | ["ok", _, "0", _] => true
+      | _ => false
     let v :=
       if kvGet (words impl) "res" == some "nilnil" then "viol:neither-message-nor-error"
       else match outOfStr impl with
-      | some o => if spec q u t o then "ok" else "viol"
+      | some o =>
+        if noTcReply && o.tcpCalls != 0 then "viol:tcp-attempt-for-a-reply-without-tc"
+        else if spec q u t o then "ok" else "viol"
       | none => "unparsed"
     (m, v)
   | _, _, _ => ("bad-case", "na")
